@@ -38,15 +38,15 @@ def prefix_ok(ks):
     return True
 
 
-def seq_obligations(prefix, kinds, n, nfirst, symflags=False, timeout=600, free=False):
+def seq_obligations(prefix, kinds, n, nfirst, symflags=False, timeout=600, free=False, pre=()):
     """one shard per fixed prefix of `nfirst` command kinds; the remaining n - nfirst kinds and all documented flags are symbolic"""
     import itertools
     obs = []
     for first in itertools.product(range(len(kinds)), repeat=nfirst):
         if not prefix_ok([kinds[i] for i in first]):
             continue            # no well-formed module starts like this (the shard would be vacuous)
-        obs.append(vf.CH(f"{prefix} sequences N={n}{' free-regex' if free else ''} starting with {[kinds[i] for i in first]}", "seq.py",
-                         dict(KINDS=tuple(kinds), FIRST=tuple(first), N=n, SYMFLAGS=symflags, FREE=free, KT=tup(n), DT=tup(n, "bool")),
+        obs.append(vf.CH(f"{prefix} sequences N={n}{' free-regex' if free else ''}{(' after %d concrete commands' % len(pre)) if pre else ''} starting with {[kinds[i] for i in first]}", "seq.py",
+                         dict(KINDS=tuple(kinds), FIRST=tuple(first), N=n, SYMFLAGS=symflags, FREE=free, PREFIX=tuple(pre), KT=tup(n), DT=tup(n, "bool")),
                          timeout=timeout, encodes=ENC,
                          symbolic=f"the kind of every command after the fixed prefix (out of {len(kinds)}), the documented flag of every command"
                                   + (", the ten include_undocumented_* flags" if symflags else ""),
